@@ -111,9 +111,10 @@ type Node struct {
 	Layout   string     `json:"layout,omitempty"`  // time: z.Time.Format(layout)
 	CustomT  string     `json:"customT,omitempty"` // custom: "string" | "int"
 	CustomFn string     `json:"customFn,omitempty"`
-	PreFn    string     `json:"preFn,omitempty"` // preprocess behaviour: ok | error | split
-	ShareID  int        `json:"share,omitempty"` // nodes with the same non-zero ShareID are built as ONE schema object
-	ID       int        `json:"id"`              // preorder number, set by Number()
+	PreFn    string     `json:"preFn,omitempty"`   // preprocess behaviour: ok | error | split
+	TypeRot  int        `json:"typeRot,omitempty"` // shared struct nodes: rotate the destination type's field order at this use
+	ShareID  int        `json:"share,omitempty"`   // nodes with the same non-zero ShareID are built as ONE schema object
+	ID       int        `json:"id"`                // preorder number, set by Number()
 }
 
 // Number assigns preorder ids and returns the number of nodes.
